@@ -15,7 +15,7 @@ def run_unit(u, repo, outdir, prop, tier):
     spec = tomllib.load(open(os.path.join(VERIF, "contracts", "scan", u["spec"] + ".toml"), "rb"))
     os.makedirs(outdir, exist_ok=True)
     job = {"repo": repo, "mode": "scan", "calls": spec.get("calls", []), "methods": spec.get("methods", []),
-           "fields": spec.get("fields", []), "macros": spec.get("macros", []), "idents": spec.get("idents", [])}
+           "fields": spec.get("fields", []), "macros": spec.get("macros", []), "idents": spec.get("idents", []), "pats": spec.get("pats", [])}
     jp = os.path.join(outdir, u["spec"] + ".scan.json")
     json.dump(job, open(jp, "w"))
     vx = vxgen.VX if os.path.exists(vxgen.VX) else os.path.join(VERIF, "vx", "target", "debug", "vx")
@@ -32,6 +32,7 @@ def run_unit(u, repo, outdir, prop, tier):
     used = set()
     ignored = 0
     ignore_arg = spec.get("ignore_arg", False)
+    counts = {}
     for s in sites:
         skip = False
         for ig in ignore:
@@ -50,22 +51,40 @@ def run_unit(u, repo, outdir, prop, tier):
             continue
         key = None
         for i, l in enumerate(listed):
-            if l["file"] == s["file"] and l["enclosing_fn"] == s["enclosing_fn"] and l["what"] == s["what"] and (ignore_arg or l.get("arg", s["arg"]) == s["arg"]):
+            if l["file"] == s["file"] and l["enclosing_fn"] == s["enclosing_fn"] and l["what"] == s["what"] \
+                    and ("kind" not in l or l["kind"] == s["kind"]) \
+                    and (ignore_arg or l.get("arg", s["arg"]) == s["arg"]):
                 key = i
                 break
-        oid = "%s/S/%s@%s::%s::%s(%s)" % (prop, spec["name"], s["file"], s["enclosing_fn"], s["what"], "" if ignore_arg else slug(s["arg"], 40))
-        if ignore_arg:
-            oid += "#L%d" % s["line"] if key is None else ""
+        kindtag = (s["kind"] + ":") if any("kind" in l for l in listed) else ""
+        oid = "%s/S/%s@%s::%s::%s%s(%s)" % (prop, spec["name"], s["file"], s["enclosing_fn"], kindtag, s["what"], "" if ignore_arg else slug(s["arg"], 40))
         if key is None:
+            oid += "#L%d" % s["line"] if ignore_arg else ""
             o = Obligation(oid, "scan", FAILED,
                            detail="unlisted %s site at %s:%d -- obligation `%s` is not discharged for it" % (s["what"], s["file"], s["line"], spec["obligation"]),
                            fn="%s :: %s" % (s["file"], s["enclosing_fn"]), src=(s["file"], s["line"]), raw=json.dumps(s))
             obls.append(o)
-        else:
-            used.add(key)
-            o = Obligation(oid, "scan", DISCHARGED, fn="%s :: %s" % (s["file"], s["enclosing_fn"]), src=(s["file"], s["line"]))
-            o.detail = listed[key]["discharged_by"]
+            continue
+        used.add(key)
+        counts[key] = counts.get(key, 0) + 1
+        l = listed[key]
+        if "arms" in l and s.get("arm", "") not in l["arms"]:
+            o = Obligation(oid + "#arm", "scan", FAILED,
+                           detail="the arm that inspects the failure at %s:%d changed: `%s` (pinned: %s)" % (s["file"], s["line"], s.get("arm", "")[:120], l["arms"]),
+                           fn="%s :: %s" % (s["file"], s["enclosing_fn"]), src=(s["file"], s["line"]), raw=json.dumps(s))
             obls.append(o)
+            continue
+        o = Obligation(oid, "scan", DISCHARGED, fn="%s :: %s" % (s["file"], s["enclosing_fn"]), src=(s["file"], s["line"]))
+        o.detail = l["discharged_by"]
+        obls.append(o)
+    # pinned number of sites per listed function
+    for i, l in enumerate(listed):
+        if "count" in l and i in counts and counts[i] != l["count"]:
+            kindtag = (l.get("kind", "") + ":") if "kind" in l else ""
+            oid = "%s/S/%s@%s::%s::%s%s()#count" % (prop, spec["name"], l["file"], l["enclosing_fn"], kindtag, l["what"])
+            obls.append(Obligation(oid, "scan", FAILED,
+                                   detail="%s::%s has %d `%s` inspection sites, %d are listed: a site was added or removed" % (l["file"], l["enclosing_fn"], counts[i], l["what"], l["count"]),
+                                   fn="%s :: %s" % (l["file"], l["enclosing_fn"])))
     if not sites:
         raise Undecided("scan %s found no site at all (pattern lost?)" % spec["name"])
     # several occurrences inside one listed function share one obligation id
